@@ -94,23 +94,73 @@ def ensure_occurs(rng, mspec, arrays):
 MUTATED = []  # (function name, argument label): a public call changed one of the caller's arrays (byte comparison)
 
 
-def _arrays(label, v, out):
-    if isinstance(v, np.ndarray) and v.dtype != object:
+def _arrays(label, v, out, conts=None):
+    """collects the ndarrays (numeric and object, e.g. dates) and the mutable containers (lists / dicts) of an argument"""
+    if isinstance(v, np.ndarray):
         out.append((label, v))
     elif isinstance(v, (list, tuple)):
+        if conts is not None and isinstance(v, list):
+            conts.append((label, v, list(v)))
         for n, x in enumerate(v):
-            _arrays(f"{label}[{n}]", x, out)
+            _arrays(f"{label}[{n}]", x, out, conts)
+    elif isinstance(v, dict):
+        if conts is not None:
+            conts.append((label, v, dict(v)))
+        for key, x in v.items():
+            _arrays(f"{label}[{key!r}]", x, out, conts)
+
+
+def _same_items(now, before):
+    """a container is unchanged when it has the same length and every item is the same object (or an equal scalar / string)"""
+    if isinstance(before, dict):
+        return list(now.keys()) == list(before.keys()) and all(_same_items([now[k_]], [before[k_]]) for k_ in before)
+    return len(now) == len(before) and all(x is y or (isinstance(y, (int, float, str, bool)) and type(x) is type(y) and x == y)
+                                           for x, y in zip(now, before))
+
+
+def defaults_snapshot():
+    """the mutable default arguments of the public evaluation functions (a function must not change them between calls)"""
+    import copy
+    import inspect
+
+    from ibicus.evaluate import correlation, marginal, multivariate, trend
+
+    fns = [marginal.calculate_marginal_bias, marginal.calculate_bias_days_metrics, trend.calculate_future_trend_bias, trend.calculate_future_trend,
+           multivariate.calculate_conditional_joint_threshold_exceedance, correlation.rmse_spatial_correlation_distribution]
+    out = {}
+    for f in fns:
+        for name, par in inspect.signature(f).parameters.items():
+            if isinstance(par.default, (list, dict, set)):
+                out[(f.__name__, name)] = (par.default, copy.deepcopy(par.default))
+    return out
+
+
+DEFAULTS0 = {}
+
+
+def defaults_changed():
+    """[(function, parameter, before, now)] and restores the default objects in place"""
+    bad = []
+    for (fname, name), (obj, before) in DEFAULTS0.items():
+        if obj != before:
+            bad.append((fname, name, before, type(before)(obj)))
+            if isinstance(obj, list):
+                obj[:] = before
+            elif isinstance(obj, dict):
+                obj.clear()
+                obj.update(before)
+    return bad
 
 
 def call(fn, *a, **k):
     """-> ("ok", value) | ("raise", exception class name).  Every real call goes through here: an exception of the real
     code never escapes the harness, and the caller's arrays are compared byte for byte before / after the call (a call
     that changed one is recorded in MUTATED and the content is restored so that later comparisons stay meaningful)."""
-    arrs = []
+    arrs, conts = [], []
     for n, v in enumerate(a):
-        _arrays(f"arg{n}", v, arrs)
+        _arrays(f"arg{n}", v, arrs, conts)
     for key, v in k.items():
-        _arrays(key, v, arrs)
+        _arrays(key, v, arrs, conts)
     snap = [(lab, x, x.copy()) for lab, x in arrs]
     with warnings.catch_warnings(), np.errstate(all="ignore"):
         warnings.simplefilter("ignore")
@@ -121,11 +171,23 @@ def call(fn, *a, **k):
                 out = ("raise", "NoRows")  # pandas: every row of the result frame was dropped (inf somewhere)
             else:
                 out = ("raise", type(ex).__name__)
+    fname = getattr(fn, "__name__", str(fn))
     for lab, x, before in snap:
-        if x.tobytes() != before.tobytes():
-            if (getattr(fn, "__name__", str(fn)), lab) not in MUTATED:
-                MUTATED.append((getattr(fn, "__name__", str(fn)), lab))
+        changed = (not np.array_equal(x, before)) if x.dtype == object else (x.tobytes() != before.tobytes())
+        if changed:
+            if (fname, lab) not in MUTATED:
+                MUTATED.append((fname, lab))
             x[...] = before
+    for lab, c, before in conts:  # lists / dicts the caller holds (statistics, metrics, [data, time] pairs)
+        if not _same_items(c, before):
+            note = f"{lab} (list/dict: {before!r:.80} -> {c!r:.80})"
+            if (fname, note) not in MUTATED:
+                MUTATED.append((fname, note))
+            if isinstance(c, list):
+                c[:] = before
+            else:
+                c.clear()
+                c.update(before)
     return out
 
 
@@ -489,9 +551,12 @@ def run_case(k, rng, tier, batch, res, problems, n_oracle):
     if k < n_oracle:
         oracle_relations(rng, case, data, problem, obs, rawV, rawF, bcV, bcF, tV, tF, metrics, stats, scale)
     for fname, lab in MUTATED:
-        problem(fname, f"the call modified the caller's array passed as '{lab}' (content differs byte for byte after the call)",
+        problem(fname, f"the call modified the caller's argument passed as '{lab}' (content differs after the call)",
                 {"relation": "inputs_unchanged"})
     del MUTATED[:]
+    for fname, name, before, now in defaults_changed():
+        problem(fname, f"the default argument `{name}` changed from {before} to {now} (every later call with default arguments is affected)",
+                {"relation": "defaults_unchanged"})
     return case
 
 
@@ -703,9 +768,92 @@ def oracle_time_scoped(case, problem, obs, rawV, rawF, bcV, bcF, tV, tF, scale, 
                 problem("calculate_conditional_joint_threshold_exceedance", f"{name} metric: {why}", rel)
 
 
+def frames_differ(a, b):
+    """two outcomes of call(): None when they are the same result (same rows in the same order, arrays bit for bit)"""
+    if a[0] != b[0]:
+        return f"first call {a[0]} {a[1] if a[0] == 'raise' else ''}, second call {b[0]} {b[1] if b[0] == 'raise' else ''}"
+    if a[0] == "raise":
+        return None if a[1] == b[1] else f"first call raised {a[1]}, second {b[1]}"
+    da, db = a[1], b[1]
+    if list(da.columns) != list(db.columns) or len(da) != len(db):
+        lab = lambda d: [(r["Correction Method"], r.get("Metric", "")) for _, r in d.iterrows()]  # noqa: E731
+        return f"first call returns {len(da)} rows {lab(da)}, second call {len(db)} rows {lab(db)}"
+    for n in range(len(da)):
+        for c in da.columns:
+            x, y = da.iloc[n][c], db.iloc[n][c]
+            same = np.array_equal(np.asarray(x, dtype=float), np.asarray(y, dtype=float), equal_nan=True) if isinstance(x, np.ndarray) or isinstance(x, float) else x == y
+            if not same:
+                return f"row {n} column {c}: first call {x!r:.60}, second call {y!r:.60}"
+    return None
+
+
+def oracle_repeat(case, problem, obs, rawV, rawF, bcV, bcF, tV, tF, metrics, stats, scale):
+    """every public function called twice in a row — with its default arguments, and with the same caller-held list
+    objects — returns the same result both times, the documented default rows are all there, and neither the caller's
+    lists nor the functions' default arguments change (call() compares lists / dicts as well as arrays)"""
+    from ibicus.evaluate import correlation, marginal, multivariate, trend
+
+    mobjs = [m[0] for m in metrics]
+    st = list(stats)
+    cmV, cmT = [rawV, tV], [[bcV, bcF]]
+    rel = {"relation": "repeated_calls"}
+    D = ["mean", 0.05, 0.95]
+    regular = (case.get("flavour") == "regular" and all(ref_marginal("percentage", q, obs, rawV) is not None for q in D)
+               and all(ref_trend_bias("additive", q, rawV, rawF, bcV, bcF) is not None for q in D))
+    calls = [
+        ("calculate_marginal_bias", "default arguments", lambda: call(marginal.calculate_marginal_bias, obs=obs, raw=rawV), ["Mean", "0.05 qn", "0.95 qn"]),
+        ("calculate_marginal_bias", "same list objects", lambda: call(marginal.calculate_marginal_bias, obs=[obs, tV], statistics=st, metrics=mobjs,
+                                                                     percentage_or_absolute="absolute", raw=cmV), None),
+        ("calculate_bias_days_metrics", "same list objects", lambda: call(marginal.calculate_bias_days_metrics, obs_data=[obs, tV], metrics=mobjs, raw=cmV), None),
+        ("calculate_future_trend_bias", "default arguments", lambda: call(trend.calculate_future_trend_bias, rawV, rawF, bc=cmT[0]), ["Mean", "0.05 qn", "0.95 qn"]),
+        ("calculate_future_trend_bias", "same list objects", lambda: call(trend.calculate_future_trend_bias, raw_validate=rawV, raw_future=rawF, statistics=st,
+                                                                         metrics=mobjs, time_validate=tV, time_future=tF, bc=cmT[0]), None),
+        ("calculate_future_trend", "default arguments", lambda: call(trend.calculate_future_trend, bc=cmT[0]), ["Mean", "0.05 qn", "0.95 qn"]),
+        ("calculate_future_trend", "same list objects", lambda: call(trend.calculate_future_trend, statistics=st, metrics=mobjs, time_validate=tV,
+                                                                    time_future=tF, bc=cmT[0]), None),
+        ("calculate_conditional_joint_threshold_exceedance", "same list objects",
+         lambda: call(multivariate.calculate_conditional_joint_threshold_exceedance, mobjs[0], mobjs[1], d=cmV[:1] + [bcV, tV]), None),
+    ]
+    for fname, how, f, default_rows in calls:
+        a = f()
+        b = f()
+        c = f()
+        why = frames_differ(a, b) or frames_differ(b, c)
+        if why:
+            problem(fname, f"repeated call with {how}: {why}", rel)
+        # additive trends / percentage bias of positive data: nothing is dropped, so the documented default statistics are all reported
+        if default_rows and regular:
+            for n_, out in enumerate((a, b, c)):
+                if out[0] == "ok":
+                    labs = list(out[1]["Metric"])
+                    if labs != default_rows:
+                        problem(fname, f"call {n_ + 1} with {how} reports the rows {labs}, the documented default statistics are {default_rows}", rel)
+                        break
+                elif regular:
+                    problem(fname, f"call {n_ + 1} with {how} raised {out[1]}", rel)
+                    break
+    # ambient settings: the verbosity of the library / root logger and numpy's print options do not change a result
+    from harness.c18 import ambient
+
+    for fname, how, f, _ in calls[1:8:2]:
+        base = f()
+        for name in ("logger DEBUG", "root logger DEBUG", "printoptions"):
+            with ambient(name):
+                other = f()
+            why = frames_differ(base, other)
+            if why:
+                problem(fname, f"result changes with {name} ({how}): {why}", {"relation": "ambient_settings"})
+    if st != list(stats) or any(x is not y for x, y in zip(mobjs, [m[0] for m in metrics])):
+        problem("evaluate", f"the caller's statistics / metrics list changed: {stats} -> {st}", rel)
+    for fname, name, before, now in defaults_changed():
+        problem(fname, f"the default argument `{name}` changed from {before} to {now} (every later call with default arguments is affected)",
+                {"relation": "defaults_unchanged"})
+
+
 def oracle_relations(rng, case, data, problem, obs, rawV, rawF, bcV, bcF, tV, tF, metrics, stats, scale):
     from ibicus.evaluate import correlation, marginal, multivariate, trend
 
+    oracle_repeat(case, problem, obs, rawV, rawF, bcV, bcF, tV, tF, metrics, stats, scale)
     oracle_positional(case, problem, obs, rawV, rawF, bcV, bcF, tV, tF, metrics, stats, scale)
     oracle_time_scoped(case, problem, obs, rawV, rawF, bcV, bcF, tV, tF, scale, stats)
 
@@ -994,6 +1142,8 @@ def run(tier, res, force_search=False):
     ]
 
     lean_ok = C.lean_phase(res, PROP, GEN, TARGETS)
+    DEFAULTS0.clear()
+    DEFAULTS0.update(defaults_snapshot())  # before the first call of this process
     logging.disable(logging.WARNING)  # trend.py reports dropped rows with logging.warning
 
     n_cases = 9 if tier == "quick" else 240
@@ -1077,6 +1227,8 @@ def replay(data):
     if not fi:
         print("replay without failing input: run ./check C20 --tier quick")
         return 2
+    DEFAULTS0.clear()
+    DEFAULTS0.update(defaults_snapshot())
     if fi.get("relation") == "long_record":
         probs = []
         long_record_case(fi["long_seed"], None, probs)
